@@ -65,6 +65,10 @@ def one(name: str) -> dict:
             out['status'] = 'MISSED'
             return out
         c, line = caught
+        if os.environ.get('VERIF_SELFTEST_NOREPLAY'):
+            out['status'] = 'caught'
+            out['replay'] = {'skipped': True, 'clause': line.split('#', 1)[-1].strip()[:160]}
+            return out
         m = re.search(r'replay=(\S+)', line)
         rp = m.group(1)
         keep = SCRATCH / f'{name}.replay.json'
